@@ -5,6 +5,7 @@ package main
 
 import (
 	"fmt"
+	"math/big"
 	"strings"
 
 	"verifharness/lib"
@@ -314,6 +315,43 @@ func main() {
 		runReset(out, next(), "bytes", lib.Bytes("a"), lib.DirectScript(lib.Bytes("a")), lib.Bytes("bb"), lib.DirectScript(lib.Bytes("bb")))
 	}
 
+	{ // every non-negative int held by a basicnode.NewUint node: as root, list element, map value, and as
+		// the argument of AssignNode into other builders; read back like any int (AsInt within int64)
+		big := func(s string) *lib.Val { i, _ := new(big.Int).SetString(s, 10); return &lib.Val{Kind: lib.KInt, I: i} }
+		var pool []*lib.Val
+		for _, i := range lib.IntPool {
+			if i.Sign() >= 0 {
+				pool = append(pool, &lib.Val{Kind: lib.KInt, I: i})
+			}
+		}
+		for _, sv := range []string{"4294967294", "9007199254740990", "9223372036854775806", "9223372036854775809", "2", "127", "128", "32767", "32768"} {
+			pool = append(pool, big(sv))
+		}
+		urng := lib.NewRng(fl.Seed + 99)
+		for k := 0; k < 12; k++ {
+			pool = append(pool, lib.Uint(urng.U64()>>uint(urng.Intn(64))))
+		}
+		for _, v := range pool {
+			u := lib.UintSpec(v)
+			plus := &lib.Val{Kind: lib.KInt, I: new(big.Int).Add(v.I, big.NewInt(1))}
+			if plus.I.BitLen() > 64 {
+				plus = lib.Int(0)
+			}
+			muts := []*lib.Val{plus, lib.Float(1)}
+			runCase(out, next(), "any", v, []*lib.Op{{Code: "XN", N: u}}, muts)
+			l := lib.List(v)
+			runCase(out, next(), "any", l, lib.UintScript(l), []*lib.Val{lib.List(plus)})
+			runCase(out, next(), "list", l, []*lib.Op{{Code: "XN", N: lib.UintSpec(l)}}, nil)
+			runCase(out, next(), "bindlist", l, lib.UintScript(l), nil)
+			m := lib.Map(lib.Entry{K: "u", V: v}, lib.Entry{K: "l", V: l})
+			runCase(out, next(), "any", m, lib.UintScript(m), []*lib.Val{lib.Map(lib.Entry{K: "u", V: plus}, lib.Entry{K: "l", V: l})})
+			runCase(out, next(), "map", m, []*lib.Op{{Code: "XN", N: lib.UintSpec(m)}}, nil)
+			if v.I.Cmp(lib.Two63) < 0 {
+				runCase(out, next(), "int", v, []*lib.Op{{Code: "XN", N: u}}, nil)
+			}
+		}
+	}
+
 	{ // nodes of the generated code (gendemo Msg3, Map__String__Msg3) as roots and as children: the whole
 		// read-back (incl. retained iterator keys) runs on them too
 		grng := lib.NewRng(fl.Seed + 77)
@@ -363,6 +401,10 @@ func main() {
 			}
 		}
 		base := next()
+		if i%10 == 7 && v.KindMask()&(1<<lib.KInt) != 0 { // the same value with its non-negative ints in UintNodes
+			runCase(out, base+".u", "any", v, lib.UintScript(v), []*lib.Val{rng.Mutant(v)})
+			runCase(out, base+".un", "any", v, []*lib.Op{{Code: "XN", N: lib.UintSpec(v)}}, nil)
+		}
 		for s := 0; s < 3; s++ {
 			ops := rng.GenScript(v, s == 0)
 			proto := "any"
